@@ -205,10 +205,6 @@ pub fn gen(tier: &str, seed: u64, out: &mut dyn FnMut(Value)) {
         tuples(&MATCH_TOKS, n, &mut |t| {
             let gaps = (n - 1) as u32;
             for m in 0..(1u32 << gaps) {
-                // quick tier, 3 tokens: no spaces, all spaces, and one mixed pattern chosen by the tuple
-                if n == 3 && !thorough && m != 0 && m != 3 && m != 1 + ((t[0].len() + t[2].len()) as u32 % 2) {
-                    continue;
-                }
                 out(match_case(join(t, m), &format!("match exhaustive {n} tokens")));
             }
         });
